@@ -27,8 +27,44 @@ from sa.index import AnalysisError    # noqa: E402
 PROPS = ["C%02d" % i for i in range(1, 21)]
 
 
+def _resilient_rules():
+    """a rule that cannot read the tree (`AnalysisError`: a role not resolved, an exploration that meets nothing to
+    reason from, a budget exhausted) says so and lets the other rules of the property run: the ones that need no
+    exploration at all still give their verdict"""
+    import functools
+    import inspect
+    import pkgutil
+    import re
+    import sa.rules
+    for m in pkgutil.iter_modules(sa.rules.__path__):
+        if re.match(r'c\d\d$', m.name):
+            continue
+        mod = importlib.import_module('sa.rules.' + m.name)
+        for name, fn in list(vars(mod).items()):
+            if not inspect.isfunction(fn) or fn.__module__ != mod.__name__ or getattr(fn, '_resilient', False):
+                continue
+            if list(inspect.signature(fn).parameters)[:2] != ['ctx', 'rep']:
+                continue
+
+            def make(f):
+                @functools.wraps(f)
+                def w(ctx, rep, *a, **k):
+                    try:
+                        return f(ctx, rep, *a, **k)
+                    except AnalysisError as e:
+                        seen = rep.__dict__.setdefault('_engine_seen', set())
+                        if str(e) not in seen:
+                            seen.add(str(e))
+                            rep.error("engine", str(e))
+                        return None
+                w._resilient = True
+                return w
+            setattr(mod, name, make(fn))
+
+
 def run_property(prop, tier, seed, root=None, write_evidence=True, quiet=False):
     from sa.ctx import Ctx
+    _resilient_rules()
     rep = Report(prop, tier, seed)
     cmd = "%s %s --property %s --tier %s" % (sys.executable, os.path.join(HERE, "vcheck.py"), prop, tier)
     try:
